@@ -73,11 +73,6 @@ Theorem C20_T6_no_scheme : forall a : str,
   component_transport a = Tcp (ensure_port a 5222).
 Proof. exact T6_other. Qed.
 
-(* the WebSocket transport reports itself secure exactly for the wss scheme, in any case *)
-Theorem C20_ws_secure : forall a : str,
-  ws_is_secure a = true <-> exists u r, a = u ++ s_sep ++ r /\ map lower u = sch_wss.
-Proof. exact ws_is_secure_spec. Qed.
-
 (* T1..T6 combined: what both constructors dial, per host form ([dials a h p]: both
    return the TCP transport whose address splits into exactly host h and port p).
    host:port is a URL only when the port starts with "//" (no port number does);
@@ -139,7 +134,6 @@ Example C20_example :
   component_transport (c_lbr :: ex_v6m ++ c_rbr :: c_colon :: ex_port)
     = Tcp (c_lbr :: ex_v6m ++ c_rbr :: c_colon :: ex_port) /\
   client_transport (ex_WSS ++ s_sep ++ ex_name) = WebSocket (ex_WSS ++ s_sep ++ ex_name) /\
-  ws_is_secure (ex_WSS ++ s_sep ++ ex_name) = true /\
   component_transport (sch_ws ++ s_sep ++ ex_name) = NotSupported /\
   client_transport (sch_ws ++ c_colon :: ex_port) = Tcp (sch_ws ++ c_colon :: ex_port) /\
   checker_params (c_lbr :: ex_v6m ++ c_rbr :: c_colon :: ex_port)
@@ -164,7 +158,6 @@ Print Assumptions C20_dial_bracketed_v6_without_port.
 Print Assumptions C20_dial_bracketed_v6_with_port.
 Print Assumptions C20_dial_bare_v6.
 Print Assumptions C20_ws_named_host.
-Print Assumptions C20_ws_secure.
 Print Assumptions C20_dial_host_with_numeric_port.
 Print Assumptions C20_checker_host_without_port.
 Print Assumptions C20_checker_host_with_port.
